@@ -273,7 +273,7 @@ func runHarness(prog *ssa.Program, pkg *ssa.Package, fn *ssa.Function, solver, t
 	e := &Engine{c: ctx, sol: sol, prog: prog, finfo: map[*ssa.Function]*fnInfo{}, globals: map[*ssa.Global]int{},
 		inited: map[*ssa.Package]bool{}, vioSites: map[string]bool{}, reached: res.Reached, maxSteps: maxSteps,
 		deadline: t0.Add(time.Duration(timeout) * time.Second), verbose: verbose, funcsSeen: map[string]bool{},
-		harness: fn.Name(), tier: tier, symIdx: optSymIdx, symLen: optSymLen, noModel: optNoModel, shard: shard, ifShapes: map[*ssa.If]*ifShape{}, uniq: map[string]int{}, noIfConv: optNoIfConv}
+		harness: fn.Name(), tier: tier, symIdx: optSymIdx, symLen: optSymLen, noModel: optNoModel, shard: shard, ifShapes: map[*ssa.If]*ifShape{}, uniq: map[string]int{}, fnByName: map[string]*ssa.Function{}, noIfConv: optNoIfConv}
 	if os.Getenv("GOSMT_DEBUG") != "" {
 		e.dbgLabels = dbgLabelsG
 	}
@@ -286,6 +286,7 @@ func runHarness(prog *ssa.Program, pkg *ssa.Package, fn *ssa.Function, solver, t
 		res.Sat, res.Unsat, res.Unknown = sol.Sat, sol.Unsat, sol.Unknown
 		res.SolverS = sol.Time.Seconds()
 		res.Violations = e.violations
+		res.Solver = e.sol.name
 		res.ModelOnly = e.usedModels
 		for f := range e.funcsSeen {
 			if strings.Contains(f, "IrineSistiana") && !strings.Contains(f, "VerifH_") && !strings.Contains(f, "verifrt") {
